@@ -222,10 +222,7 @@ def boolMethod (b : Bool) (name : Str) (raw : List Val) (kw : List (Str × Val))
     noKw kw; argCheck .bool cs!"to_string" args
     match args with
     | [] => pure (.str (if b then cs!"true" else cs!"false"))
-    | [.str t, .str f] =>
-      let t' := if t.isEmpty then cs!"true" else t
-      let f' := if f.isEmpty then cs!"false" else f
-      pure (.str (if b then t' else f'))
+    | [.str t, .str f] => pure (.str (if b then t else f))   -- the given strings, even when empty
     | [_] => throw .invalidArguments
     | _ => throw .unsupported
   else throw .unsupported
